@@ -8,6 +8,9 @@ keys are decided by the solver.
 """
 import gtirb
 
+import functools
+import signal
+
 from symx import core, run, shims
 from symx.core import And
 
@@ -33,7 +36,7 @@ def _module(nblocks):
 # ---------------------------------------------------------------------------
 # ReferenceCache == assigning Symbol.referent directly
 # ---------------------------------------------------------------------------
-def h_reference_cache(eng, nblocks, placement, n_retarget, n_query, first_fixed):
+def h_reference_cache(eng, nblocks, placement, n_retarget, n_query, first_fixed, allow_self=False):
     from gtirb_rewriting._modify.cache import ReferenceCache
     ir, m, blocks = _module(nblocks)
     syms = []
@@ -49,7 +52,7 @@ def h_reference_cache(eng, nblocks, placement, n_retarget, n_query, first_fixed)
                   "symbol %s reads (%r, at_end=%s) after being made direct; the model says (%r, %s)" % (
                       s.name, s.referent, s.at_end, model[s][0], model[s][1]))
 
-    pairs = [(i, j) for i in range(nblocks) for j in range(nblocks) if i != j]
+    pairs = [(i, j) for i in range(nblocks) for j in range(nblocks) if i != j or allow_self]
     with cache:
         for step in range(n_retarget):
             if step == 0 and first_fixed:
@@ -411,8 +414,43 @@ def classify(rec):
     return "violation"
 
 
+_G = globals()
+
+
+class NonTermination(Exception):
+    pass
+
+
+_HUNG = {}
+
+
+def watchdog(fn, seconds=3):
+    """A container operation that does not return (e.g. a cycle in the reference cache's parent links) is a violation,
+    not a timeout of the exploration: every path of these harnesses takes milliseconds.  After the first such path of
+    a scenario the remaining ones are not waited for."""
+    @functools.wraps(fn)
+    def wrapped(eng, **params):
+        if eng.sym and _HUNG.get(eng.shape, 0) >= 3:
+            raise core.Abort()
+
+        def on_timer(sig, frame):
+            _HUNG[eng.shape] = _HUNG.get(eng.shape, 0) + 1
+            raise NonTermination("a container operation did not return within %d s of CPU time" % seconds)
+        old = signal.signal(signal.SIGPROF, on_timer)
+        signal.setitimer(signal.ITIMER_PROF, seconds)
+        try:
+            return fn(eng, **params)
+        finally:
+            signal.setitimer(signal.ITIMER_PROF, 0)
+            signal.signal(signal.SIGPROF, old)
+    return wrapped
+
+
 def make_check(tier):
     chk = run.Check("C20", tier)
+    h_reference_cache, h_return_cache, h_make_return_cache, h_block_ordering, h_offset_mapping, h_identity_set = (
+        watchdog(f) for f in (_G["h_reference_cache"], _G["h_return_cache"], _G["h_make_return_cache"],
+                              _G["h_block_ordering"], _G["h_offset_mapping"], _G["h_identity_set"]))
     chk.install_shims = install
     chk.classify_exception = classify
     quick = tier == "quick"
@@ -423,6 +461,10 @@ def make_check(tier):
     }
     chk.add("refcache/3blocks/chain", h_reference_cache,
             params=dict(nblocks=3, placement=placements["3x3"], n_retarget=2, n_query=2, first_fixed=True), timeout=3000)
+    # retargeting a block to itself (only the end flag can change) among the requests
+    chk.add("refcache/3blocks/self", h_reference_cache,
+            params=dict(nblocks=3, placement=placements["3x3"], n_retarget=2, n_query=1, first_fixed=False, allow_self=True),
+            timeout=3000)
     chk.add("refcache/3blocks/shared", h_reference_cache,
             params=dict(nblocks=3, placement=placements["shared"], n_retarget=2, n_query=2, first_fixed=True), timeout=3000)
     if quick:
